@@ -178,8 +178,8 @@ def gen_case(rng, flavour):
 # oracle: every organisation of a case gives the same results (up to the choice among exact ties)
 
 def brute_search(sigs, q, members, st, bo, tnum, tden):
-    """the property's reference: one linear scan over all sketches (canonical text), or None when two sketches
-    share an md5 but not a score (then the de-duplicated result is not determined by the statement)"""
+    """the property's reference: one linear scan over all sketches, one row per distinct (md5, scaled) sketch
+    (canonical text)"""
     thr = tnum / tden
     rows = {}
     for k in members:
@@ -195,10 +195,11 @@ def brute_search(sigs, q, members, st, bo, tnum, tden):
             m = min(len(Qs), len(Ds))
             score = shared / m if m else 0
         if score and score >= thr:
-            rows.setdefault(d["md5"], set()).add(float(score))
+            # de-duplication key of search_databases_with_flat_query: (md5, scaled, num)
+            rows.setdefault((d["md5"], d["scaled"]), set()).add(float(score))
     if any(len(v) > 1 for v in rows.values()):
         return None
-    r = sorted((-next(iter(v)), m) for m, v in rows.items())
+    r = sorted((-next(iter(v)), k[0]) for k, v in rows.items())
     if bo:
         return "ok " + (G.canonF(-r[0][0]) if r else "")
     return ("ok " + ",".join(f"{m}:{G.canonF(-sc)}" for sc, m in r)).rstrip() if r else "ok "
